@@ -749,7 +749,10 @@ impl Engine for LabelEngine {
                 }
             }
         }
-        for t in &texts {
+        for (ti, t) in texts.iter().enumerate() {
+            if ti % 4096 == 0 {
+                crate::campaign::touch();
+            }
             if let Some(f) = Self::check_text(t, &mut seen, &mut evals, &mut counts) {
                 failure = Some(f);
                 break;
